@@ -3,6 +3,16 @@ import itertools, re
 from collections import Counter
 
 ID = "C01"
+MODEL_MODULES = ["Base", "Index"]
+HANDLERS = ["h_c01.ml"]
+CLAIM = dict(
+    text=("Kernel-checked theorems for every dimension and all positive extents: strides are suffix products, "
+          "flat->multi->flat and multi->flat->multi are identities, every produced index is in bounds, ndindex enumeration "
+          "equals the nested-loop order with no repetition and complete, lexicographic order = offset order, both layouts "
+          "are injective/in-range and satisfy read-over-write, and w-bit arithmetic coincides with the ideal one while the "
+          "element count fits. Tied to the C++ by running the real index functions / ndarray accessors for 7 container kinds "
+          "and both layouts against the extracted model on the small box and on sizes near 2^24..2^40."),
+    ref="5.1", technique="Coq proof (induction on the shape) + differential correspondence with the extracted model", extra="")
 RULE = ("stream small: every shape of dim 1..4 (quick: extents 1..3, dim<=3 also 4; thorough: extents 1..4, dim 5..6 extents 1..3) "
         "x {strides, product, full ndindex enumeration, both-layout array enumeration/metadata} x container kinds "
         "{std::vector<size_t>, std::array, utl::static_vector, utl::vector, runtime tuple, std::vector<int>, std::array<int>} "
